@@ -23,6 +23,7 @@ import (
 	"strings"
 	"sync"
 	"time"
+	"verif/sim/autoyield"
 
 	"verif/sim/tape"
 )
@@ -56,6 +57,7 @@ type Result struct {
 	Crash      string          `json:"crash,omitempty"`
 	Cover      []string        `json:"cover"`
 	Free       bool            `json:"-"`
+	Auto       bool            `json:"-"`
 }
 
 type replayFile struct {
@@ -65,6 +67,7 @@ type replayFile struct {
 	Finding   string   `json:"finding,omitempty"`
 	Features  string   `json:"features,omitempty"`
 	Free      bool     `json:"free_running,omitempty"`
+	Auto      bool     `json:"instrumented_build,omitempty"`
 	Signature string   `json:"signature"`
 	Detail    string   `json:"detail,omitempty"`
 	Sample    any      `json:"workload,omitempty"`
@@ -91,6 +94,9 @@ type tierCfg struct {
 	Budget time.Duration
 	Chunk  int
 	Race   bool
+	// AutoShare: percentage of the runs (and of the budget of the scheduled search) that go to
+	// the machine-instrumented build (interleaving points before every statement)
+	AutoShare int
 }
 
 type propCfg struct {
@@ -168,6 +174,94 @@ func build(race bool) string {
 	}
 	fmt.Printf("built %s from /repo working tree in %.1fs\n", name, time.Since(start).Seconds())
 	return bin
+}
+
+// repoDir is the directory the simulation module takes pebbles from (the replace line of its go.mod).
+func repoDir() string {
+	b, err := os.ReadFile(filepath.Join(root, "sim", "go.mod"))
+	if err != nil {
+		return "/repo"
+	}
+	for _, line := range strings.Split(string(b), "\n") {
+		if strings.HasPrefix(strings.TrimSpace(line), "replace github.com/buildbuildio/pebbles") {
+			f := strings.Fields(line)
+			return f[len(f)-1]
+		}
+	}
+	return "/repo"
+}
+
+var autoBuilt string
+
+// buildAuto copies the working tree of the module under test to .build/auto/repo, instruments the
+// copy (package autoyield) and builds the simulation binary against it. On failure it returns
+// "" and a note: a tree the plain build accepts but the instrumenter or the instrumented build
+// does not is reported as an infrastructure problem, never as a violation.
+func buildAuto() (string, string) {
+	if autoBuilt != "" {
+		return autoBuilt, ""
+	}
+	start := time.Now()
+	src := repoDir()
+	dir := filepath.Join(root, ".build", "auto")
+	dst := filepath.Join(dir, "repo")
+	os.RemoveAll(dst)
+	err := filepath.Walk(src, func(path string, info os.FileInfo, err error) error {
+		if err != nil {
+			return err
+		}
+		rel, _ := filepath.Rel(src, path)
+		if info.IsDir() {
+			if rel != "." && strings.HasPrefix(info.Name(), ".") {
+				return filepath.SkipDir
+			}
+			return os.MkdirAll(filepath.Join(dst, rel), 0o755)
+		}
+		if !info.Mode().IsRegular() {
+			return nil
+		}
+		b, err := os.ReadFile(path)
+		if err != nil {
+			return err
+		}
+		return os.WriteFile(filepath.Join(dst, rel), b, 0o644)
+	})
+	if err != nil {
+		return "", "instrumented build: copying the tree failed: " + err.Error()
+	}
+	files, sites, err := autoyield.Instrument(dst, "github.com/buildbuildio/pebbles")
+	if err != nil {
+		return "", "instrumented build: the instrumenter failed: " + err.Error()
+	}
+	gm, err := os.ReadFile(filepath.Join(root, "sim", "go.mod"))
+	if err != nil {
+		return "", "instrumented build: " + err.Error()
+	}
+	var lines []string
+	for _, line := range strings.Split(string(gm), "\n") {
+		if strings.HasPrefix(strings.TrimSpace(line), "replace github.com/buildbuildio/pebbles") {
+			line = "replace github.com/buildbuildio/pebbles => " + dst
+		}
+		lines = append(lines, line)
+	}
+	modfile := filepath.Join(dir, "go.mod")
+	os.WriteFile(modfile, []byte(strings.Join(lines, "\n")), 0o644)
+	if gs, err := os.ReadFile(filepath.Join(root, "sim", "go.sum")); err == nil {
+		os.WriteFile(filepath.Join(dir, "go.sum"), gs, 0o644)
+	}
+	bin := filepath.Join(root, ".build", "sim.auto.test")
+	cmd := exec.Command(goBin(), "test", "-c", "-tags", "verif", "-modfile="+modfile, "-o", bin, ".")
+	cmd.Dir = filepath.Join(root, "sim")
+	cmd.Env = envGo()
+	var buf bytes.Buffer
+	cmd.Stdout = &buf
+	cmd.Stderr = &buf
+	if err := cmd.Run(); err != nil {
+		return "", "instrumented build failed (" + err.Error() + "): " + firstLines(buf.String(), 30)
+	}
+	fmt.Printf("built sim.auto.test from an instrumented copy of %s (%d interleaving points in %d files) in %.1fs\n", src, sites, files, time.Since(start).Seconds())
+	autoBuilt = bin
+	return bin, ""
 }
 
 type childOut struct {
@@ -418,6 +512,7 @@ func main() {
 		tier     = flag.String("tier", "", "quick|thorough (default: $VERIF_TIER or quick)")
 		replay   = flag.String("replay", "", "replay a file and report")
 		runs     = flag.Int("runs", 0, "override number of runs")
+		autoPct  = flag.Int("autoshare", -1, "percentage of runs on the machine-instrumented build (default: per tier, 25; 0 switches it off)")
 		budget   = flag.Duration("budget", 0, "override wall budget")
 		workers  = flag.Int("workers", 16, "child processes")
 		features = flag.String("features", "", "feature overrides passed to scenarios")
@@ -463,6 +558,12 @@ func main() {
 	if *tier == "thorough" {
 		tc = pc.Thorough
 	}
+	if tc.AutoShare == 0 {
+		tc.AutoShare = 25
+	}
+	if *autoPct >= 0 {
+		tc.AutoShare = *autoPct
+	}
 	if *runs > 0 {
 		tc.Runs = *runs
 	}
@@ -482,7 +583,18 @@ func main() {
 	start := time.Now()
 	bin := build(tc.Race)
 	if *selftest {
-		os.Exit(determinism(bin, *prop, *tier, baseSeed, *features))
+		rc := determinism(bin, *prop, *tier, baseSeed, *features, false)
+		if tc.AutoShare > 0 {
+			ab, note := buildAuto()
+			if ab == "" {
+				fmt.Println("INFRA:", note)
+				os.Exit(2)
+			}
+			if r2 := determinism(ab, *prop, *tier, baseSeed, *features, true); r2 != 0 {
+				rc = r2
+			}
+		}
+		os.Exit(rc)
 	}
 	if *mkReplay {
 		curFinding = *finding
@@ -523,86 +635,127 @@ func main() {
 		bin = build(false)
 		detBudget = tc.Budget * 6 / 10
 	}
-	deadline := start.Add(detBudget)
-	var wg sync.WaitGroup
-	ch := make(chan chunk)
 	infra := []string{}
 	var imu sync.Mutex
-	for w := 0; w < *workers; w++ {
-		wg.Add(1)
-		go func() {
-			defer wg.Done()
-			for c := range ch {
-				from, count := c.from, c.count
-				for count > 0 {
-					if time.Now().After(deadline) {
-						break
-					}
-					remain := time.Until(deadline)
-					if remain < time.Second {
-						break
-					}
-					args := []string{"-sim.prop=" + *prop, "-sim.tier=" + *tier, fmt.Sprintf("-sim.from=%d", from), fmt.Sprintf("-sim.count=%d", count), "-sim.budget=" + remain.String()}
-					if *features != "" {
-						args = append(args, "-sim.features="+*features)
-					}
-					co := runChild(bin, args, remain+60*time.Second)
-					for _, r := range co.results {
-						a.add(r)
-					}
-					if co.crash == nil {
-						break
-					}
-					switch co.crash.Verdict {
-					case "crash":
-						sig, detail := crashSignature(*prop, co.stderr)
-						if strings.HasSuffix(sig, "/race:") {
-							// a race report without any pebbles frame is the harness's own
-							imu.Lock()
-							infra = append(infra, "data race inside the harness: "+firstLines(detail, 25))
-							imu.Unlock()
-							count = 0
+	// one phase of the seeded search: chunks of seeds handed to child processes of phaseBin
+	runPhase := func(phaseBin string, extra []string, auto bool, chunks []chunk, deadline time.Time) {
+		var wg sync.WaitGroup
+		ch := make(chan chunk)
+		for w := 0; w < *workers; w++ {
+			wg.Add(1)
+			go func() {
+				defer wg.Done()
+				for c := range ch {
+					from, count := c.from, c.count
+					for count > 0 {
+						if time.Now().After(deadline) {
 							break
 						}
-						if strings.Contains(sig, "/harness-crash:") {
-							imu.Lock()
-							infra = append(infra, fmt.Sprintf("the harness itself crashed on seed %d: %s", co.crash.Seed, firstLines(detail, 25)))
-							imu.Unlock()
-							done := int(co.crash.Seed-from) + 1
+						remain := time.Until(deadline)
+						if remain < time.Second {
+							break
+						}
+						args := []string{"-sim.prop=" + *prop, "-sim.tier=" + *tier, fmt.Sprintf("-sim.from=%d", from), fmt.Sprintf("-sim.count=%d", count), "-sim.budget=" + remain.String()}
+						if *features != "" {
+							args = append(args, "-sim.features="+*features)
+						}
+						args = append(args, extra...)
+						co := runChild(phaseBin, args, remain+60*time.Second)
+						for _, r := range co.results {
+							r.Auto = auto
+							a.add(r)
+						}
+						if co.crash == nil {
+							break
+						}
+						switch co.crash.Verdict {
+						case "crash":
+							sig, detail := crashSignature(*prop, co.stderr)
+							if strings.HasSuffix(sig, "/race:") {
+								// a race report without any pebbles frame is the harness's own
+								imu.Lock()
+								infra = append(infra, "data race inside the harness: "+firstLines(detail, 25))
+								imu.Unlock()
+								count = 0
+								break
+							}
+							if strings.Contains(sig, "/harness-crash:") {
+								imu.Lock()
+								infra = append(infra, fmt.Sprintf("the harness itself crashed on seed %d: %s", co.crash.Seed, firstLines(detail, 25)))
+								imu.Unlock()
+								done := int(co.crash.Seed-from) + 1
+								from += uint64(done)
+								count -= done
+								break
+							}
+							r := *co.crash
+							r.Prop = *prop
+							r.Auto = auto
+							r.Verdict = "violation"
+							r.Violations = []Violation{{Signature: sig, Detail: detail}}
+							r.Crash = detail
+							a.mu.Lock()
+							a.crashes++
+							a.mu.Unlock()
+							a.add(r)
+							done := int(r.Seed-from) + 1
 							from += uint64(done)
 							count -= done
-							break
+						default:
+							imu.Lock()
+							infra = append(infra, fmt.Sprintf("child %s at seed %d: %s", co.crash.Verdict, co.crash.Seed, firstLines(co.stderr, 30)))
+							imu.Unlock()
+							count = 0
 						}
-						r := *co.crash
-						r.Prop = *prop
-						r.Verdict = "violation"
-						r.Violations = []Violation{{Signature: sig, Detail: detail}}
-						r.Crash = detail
-						a.mu.Lock()
-						a.crashes++
-						a.mu.Unlock()
-						a.add(r)
-						done := int(r.Seed-from) + 1
-						from += uint64(done)
-						count -= done
-					default:
-						imu.Lock()
-						infra = append(infra, fmt.Sprintf("child %s at seed %d: %s", co.crash.Verdict, co.crash.Seed, firstLines(co.stderr, 30)))
-						imu.Unlock()
-						count = 0
 					}
 				}
-			}
-		}()
-	}
-	for _, c := range chunks {
-		if time.Now().After(deadline) {
-			break
+			}()
 		}
-		ch <- c
+		for _, c := range chunks {
+			if time.Now().After(deadline) {
+				break
+			}
+			ch <- c
+		}
+		close(ch)
+		wg.Wait()
 	}
-	close(ch)
-	wg.Wait()
+	// the machine-instrumented build takes the last part of the budget of the scheduled search
+	autoBin, autoNote := "", ""
+	autoShare := tc.AutoShare
+	plainDeadline := start.Add(detBudget)
+	if autoShare > 0 {
+		autoBin, autoNote = buildAuto()
+		if autoBin != "" {
+			plainDeadline = start.Add(detBudget * time.Duration(100-autoShare) / 100)
+		}
+	}
+	runPhase(bin, nil, false, chunks, plainDeadline)
+	autoRuns := 0
+	if autoBin != "" {
+		n := tc.Runs * autoShare / 100
+		var achunks []chunk
+		afirst := first + 500000000
+		for off := 0; off < n; off += tc.Chunk {
+			c := tc.Chunk
+			if off+c > n {
+				c = n - off
+			}
+			achunks = append(achunks, chunk{afirst + uint64(off), c})
+		}
+		before := a.runs
+		autoDeadline := start.Add(detBudget)
+		if *tier == "quick" && *autoPct < 0 {
+			// the quick tier gives the instrumented build half a minute
+			if d := time.Now().Add(30 * time.Second); d.Before(autoDeadline) {
+				autoDeadline = d
+			}
+		}
+		runPhase(autoBin, []string{"-sim.auto"}, true, achunks, autoDeadline)
+		autoRuns = a.runs - before
+	} else if autoNote != "" {
+		infra = append(infra, autoNote)
+	}
 	a.lastSeed = first + uint64(tc.Runs) - 1
 	freeRuns := 0
 	if raceBin != "" {
@@ -713,7 +866,7 @@ func main() {
 		fmt.Printf("(%d further new violation signatures not minimised: %v)\n", len(newViol)-len(reports)-nonRepro, newViol)
 	}
 	wall := time.Since(start).Seconds()
-	writeEvidence(*prop, *tier, baseSeed, pc, tc, a, wall, len(reports), knownSeen, newViol, freeRuns)
+	writeEvidence(*prop, *tier, baseSeed, pc, tc, a, wall, len(reports), knownSeen, newViol, freeRuns, autoRuns)
 	fmt.Printf("runs=%d nontrivial=%d distinct=%d schedules=%d steps=%d crashes=%d wall=%.1fs exit=%d\n", a.runs, a.nontrivial, len(a.keys), len(a.scheds), a.steps, a.crashes, wall, exit)
 	if a.runs == 0 && exit == 0 {
 		fmt.Println("INFRA: no runs completed")
@@ -920,6 +1073,13 @@ func runReplay(bin, path string) (map[string]bool, *Result, string, string) {
 	}
 	tf := path + ".trace"
 	defer os.Remove(tf)
+	if rf.Auto {
+		ab, note := buildAuto()
+		if ab == "" {
+			return nil, nil, "", note
+		}
+		bin = ab
+	}
 	co := runChild(bin, []string{"-sim.prop=" + rf.Property, "-sim.replay=" + path, "-sim.trace", "-sim.tracefile=" + tf}, 120*time.Second)
 	sigs := map[string]bool{}
 	if co.crash != nil {
@@ -1013,7 +1173,7 @@ func minimise(bin, prop, tier, features string, r Result, sig string, noShrink b
 	test := func(tp []uint32) bool {
 		tries++
 		f, _ := os.CreateTemp(dir, "cand-*.json")
-		json.NewEncoder(f).Encode(replayFile{Property: prop, Seed: r.Seed, Tier: tier, Features: features, Finding: curFinding, Free: r.Free, Tape: tp})
+		json.NewEncoder(f).Encode(replayFile{Property: prop, Seed: r.Seed, Tier: tier, Features: features, Finding: curFinding, Free: r.Free, Auto: r.Auto, Tape: tp})
 		f.Close()
 		defer os.Remove(f.Name())
 		// a crash can come from real nondeterminism the change itself introduced (e.g. a select
@@ -1023,7 +1183,12 @@ func minimise(bin, prop, tier, features string, r Result, sig string, noShrink b
 			attempts = 4
 		}
 		if r.Free {
-			attempts = 8
+			attempts = 4
+		}
+		if r.Auto && attempts < 3 {
+			// the code under test iterates over Go maps (runtime order, early exits): a run of the
+			// instrumented build can take a slightly different path when repeated
+			attempts = 3
 		}
 		for a := 0; a < attempts; a++ {
 			sigs, res, _, st := runReplay(bin, f.Name())
@@ -1115,7 +1280,7 @@ func minimise(bin, prop, tier, features string, r Result, sig string, noShrink b
 		safe = safe[:90]
 	}
 	path := filepath.Join(root, "replays", fmt.Sprintf("%s-%d.json", safe, r.Seed))
-	rf := replayFile{Property: prop, Seed: r.Seed, Tier: tier, Features: features, Finding: curFinding, Free: r.Free, Signature: sig, Tape: cur}
+	rf := replayFile{Property: prop, Seed: r.Seed, Tier: tier, Features: features, Finding: curFinding, Free: r.Free, Auto: r.Auto, Signature: sig, Tape: cur}
 	// final confirmation in a fresh process, also fills the human readable part
 	if !test(cur) {
 		return "", false
@@ -1157,8 +1322,11 @@ func minimise(bin, prop, tier, features string, r Result, sig string, noShrink b
 	return path, true
 }
 
-func determinism(bin, prop, tier string, baseSeed uint64, features string) int {
+func determinism(bin, prop, tier string, baseSeed uint64, features string, auto bool) int {
 	first := baseSeed * 1000003
+	if auto {
+		first += 500000000
+	}
 	const seeds = 40
 	type key struct {
 		seed uint64
@@ -1183,6 +1351,9 @@ func determinism(bin, prop, tier string, baseSeed uint64, features string) int {
 				if features != "" {
 					args = append(args, "-sim.features="+features)
 				}
+				if auto {
+					args = append(args, "-sim.auto")
+				}
 				cmd := exec.Command(bin, args...)
 				cmd.Dir = filepath.Join(root, "sim")
 				cmd.Env = append(os.Environ(), "GOMAXPROCS="+cpu)
@@ -1200,6 +1371,14 @@ func determinism(bin, prop, tier string, baseSeed uint64, features string) int {
 						continue
 					}
 					fp := fmt.Sprintf("%s|%s|%d|%d|%v|%s", r.Verdict, r.TraceHash, r.Steps, r.TapeUsed, r.Violations, strings.Join(r.Trace, "\n"))
+					if auto {
+						// the code under test iterates over Go maps; the order of those iterations is the
+						// runtime's, not the simulator's. In the instrumented build it shows as a permutation
+						// of consecutive interleaving points of one goroutine while nothing else is enabled:
+						// such stretches are compared as sets (and the trace hash, which is order
+						// sensitive, is left out)
+						fp = fmt.Sprintf("%s|%d|%d|%v|%s", r.Verdict, r.Steps, r.TapeUsed, r.Violations, strings.Join(canonAutoTrace(r.Trace), "\n"))
+					}
 					mu.Lock()
 					if old, ok := ref[r.Seed]; ok {
 						if old != fp {
@@ -1231,7 +1410,7 @@ func clip(s string, n int) string {
 	return s
 }
 
-func writeEvidence(prop, tier string, seed uint64, pc propCfg, tc tierCfg, a *agg, wall float64, violations int, knownSeen map[string]int, newViol []string, freeRuns int) {
+func writeEvidence(prop, tier string, seed uint64, pc propCfg, tc tierCfg, a *agg, wall float64, violations int, knownSeen map[string]int, newViol []string, freeRuns, autoRuns int) {
 	samples := []json.RawMessage{}
 	samples = append(samples, a.samples...)
 	if len(samples) == 0 {
@@ -1252,31 +1431,32 @@ func writeEvidence(prop, tier string, seed uint64, pc propCfg, tc tierCfg, a *ag
 		"violations":  violations,
 		"assumptions": pc.Assume,
 		"coverage": map[string]any{
-			"evaluations":            a.runs,
-			"distinct_nontrivial":    len(a.keys),
-			"nontrivial_runs":        a.nontrivial,
-			"rule":                   pc.Rule,
-			"samples":                samples,
-			"technique":              pc.Technique,
-			"runs_per_hour":          int(float64(a.runs) / wall * 3600),
-			"seeds":                  map[string]any{"first": a.firstSeed, "planned": tc.Runs, "executed": a.runs},
-			"simulated_seconds":      a.simSec,
-			"scheduler_steps":        a.steps,
-			"oracle_comparisons":     a.checks,
-			"faults_fired":           a.faults,
-			"probes":                 a.probes,
-			"probes_at_zero":         zeroProbes,
-			"yield_classes_released": a.classes,
-			"distinct_schedules":     len(a.scheds),
-			"real_components":        pc.Real,
-			"stub_components":        pc.Stub,
-			"known_findings_seen":    knownSeen,
-			"new_violation_signatures": newViol,
-			"child_process_crashes":  a.crashes,
-			"race_detector":          tc.Race,
+			"evaluations":                     a.runs,
+			"distinct_nontrivial":             len(a.keys),
+			"nontrivial_runs":                 a.nontrivial,
+			"rule":                            pc.Rule,
+			"samples":                         samples,
+			"technique":                       pc.Technique,
+			"runs_per_hour":                   int(float64(a.runs) / wall * 3600),
+			"seeds":                           map[string]any{"first": a.firstSeed, "planned": tc.Runs, "executed": a.runs},
+			"simulated_seconds":               a.simSec,
+			"scheduler_steps":                 a.steps,
+			"oracle_comparisons":              a.checks,
+			"faults_fired":                    a.faults,
+			"probes":                          a.probes,
+			"probes_at_zero":                  zeroProbes,
+			"yield_classes_released":          a.classes,
+			"distinct_schedules":              len(a.scheds),
+			"real_components":                 pc.Real,
+			"stub_components":                 pc.Stub,
+			"known_findings_seen":             knownSeen,
+			"new_violation_signatures":        newViol,
+			"child_process_crashes":           a.crashes,
+			"race_detector":                   tc.Race,
 			"free_running_race_detector_runs": freeRuns,
-			"coverage_points_distinct": len(a.cover),
-			"exhaustive":             false,
+			"instrumented_build_runs":         autoRuns,
+			"coverage_points_distinct":        len(a.cover),
+			"exhaustive":                      false,
 		},
 	}
 	os.MkdirAll(filepath.Join(root, "evidence"), 0o755)
@@ -1284,4 +1464,23 @@ func writeEvidence(prop, tier string, seed uint64, pc propCfg, tc tierCfg, a *ag
 	if err := os.WriteFile(filepath.Join(root, "evidence", prop+".json"), b, 0o644); err != nil {
 		fatal2("cannot write evidence: %v", err)
 	}
+}
+
+// canonAutoTrace is the schedule modulo the order in which one goroutine passes machine-inserted
+// points: the sequence of (choice, goroutine or action) as it is, followed by the sorted list of
+// (goroutine, point) visits.
+func canonAutoTrace(tr []string) []string {
+	var seq, visits []string
+	for _, l := range tr {
+		i := strings.Index(l, "@auto:")
+		if i < 0 || !strings.Contains(l[:i], " g:") {
+			seq = append(seq, l)
+			continue
+		}
+		seq = append(seq, l[:i]+"@auto")
+		j := strings.Index(l, " g:")
+		visits = append(visits, l[j+1:])
+	}
+	sort.Strings(visits)
+	return append(seq, visits...)
 }
